@@ -1,61 +1,66 @@
 /-
-  The timer of a timed wait (fixed code, `St.fixFlag`): while the caller sits in the slot with `io_flag = 0` and no timeout
-  handler is between popping an entry of this socket and raising IO_FLAG_TIMEOUT, the socket's timer handle refers to the entry
-  armed by this wait's `add_io_timer`, and that entry is still ARMED. This is what makes `io_timeout_returns` true (the io twin
-  of F6): the time-out of a registered caller cannot be lost.
+  The timer of a timed wait (repaired code): while the caller sits in the slot with `io_flag = 0` and no timeout handler holds the
+  lock of the handle cell, the cell refers to the entry armed by this wait's `arm_timer`, and that entry is still ARMED – or it has
+  just been popped and its handler is about to find it in the cell. This is what makes `io_timeout_returns` true (the io twin of
+  F6): the time-out of a registered caller cannot be lost.
 -/
-import MayVerif.Proof.Io.Inv
-import MayVerif.Proof.Io.Timer
+import MayVerif.Proof.Io.Own
 namespace MayVerif.Io
 
 structure Inv5 (st : St) : Prop where
-  ff : st.fixFlag = true
-  /-- an entry referenced by a socket's handle is not armed for another socket -/
-  ent : ∀ s t s', st.tslot s = some t → st.tm t = .armed s' → s' = s
-  tf : ∀ s t, st.tslot s = some t → t < st.nextTm
-  ta : ∀ s t, st.lastArm s = some t → t < st.nextTm ∧ ∀ s', st.tm t = .armed s' → s' = s
-  tk0 : ∀ k s c r t, st.kpc k = .set s c r t → st.lastArm s = some t
-  tk1 : ∀ k s c r t, st.kpc k = .set s c r t → st.flag s = 0 → fPend (st.wpc (st.lastFire s)) s = false → st.tm t = .armed s
-  tk2 : ∀ k s c r, st.kpc k = .store s c r → (st.dur c).isSome = true → st.flag s = 0 → fPend (st.wpc (st.lastFire s)) s = false →
-          st.tslot s = st.lastArm s ∧ (st.lastArm s).isSome = true ∧ ∀ t, st.lastArm s = some t → st.tm t = .armed s
-  ts : ∀ s c, st.slot s = some c → (st.dur c).isSome = true → st.flag s = 0 → fPend (st.wpc (st.lastFire s)) s = false →
-          st.tslot s = st.lastArm s ∧ (st.lastArm s).isSome = true ∧ ∀ t, st.lastArm s = some t → st.tm t = .armed s
-  hk : ∀ k s c, (st.kpc k = .dis s c ∨ st.kpc k = .ownDis s c) → st.upc c = .wait s
-  hw : ∀ w s c, st.wpc w = .sDis s c → st.upc c = .wait s
+  ta : ∀ s t, st.lastArm s = some t → t < st.nextTm
+  tkd : ∀ k s c r t, st.kpc k = .set s c r t → (st.dur c).isSome = true
+  tk1 : ∀ k s c r t, st.kpc k = .set s c r t → st.flag s = 0 → st.tlock s = false →
+          st.tslot s = st.lastArm s ∧ (st.lastArm s).isSome = true ∧
+          ∀ t, st.lastArm s = some t → st.tm t = .armed s ∨ st.tm t = .popped s ∨ (st.tm t = .gone ∧ st.wpc (st.popBy t) = .fChk s t)
+  tk2 : ∀ k s c r, st.kpc k = .store s c r → (st.dur c).isSome = true → st.flag s = 0 → st.tlock s = false →
+          st.tslot s = st.lastArm s ∧ (st.lastArm s).isSome = true ∧
+          ∀ t, st.lastArm s = some t → st.tm t = .armed s ∨ st.tm t = .popped s ∨ (st.tm t = .gone ∧ st.wpc (st.popBy t) = .fChk s t)
+  ts : ∀ s c, st.slot s = some c → (st.dur c).isSome = true → st.flag s = 0 → st.tlock s = false →
+          st.tslot s = st.lastArm s ∧ (st.lastArm s).isSome = true ∧
+          ∀ t, st.lastArm s = some t → st.tm t = .armed s ∨ st.tm t = .popped s ∨ (st.tm t = .gone ∧ st.wpc (st.popBy t) = .fChk s t)
 
 theorem inv5_init (co : Co → Bool) : Inv5 (init co) := by
   constructor <;> simp [init, initCfg]
 
-theorem disarmTm_other (tm : Tm → TmSt) (ts : Option Tm) (t : Tm) (h : ts ≠ some t) : disarmTm tm ts t = tm t := by
-  cases ts with
-  | none => rfl
-  | some u =>
-    simp only [disarmTm, upd]
-    split
-    · next hu => subst hu; simp at h
-    · rfl
-
-theorem disarmTm_armed (tm : Tm → TmSt) (ts : Option Tm) (t : Tm) (s : Sock) (h : disarmTm tm ts t = .armed s) : tm t = .armed s := by
-  cases ts with
-  | none => simpa [disarmTm] using h
-  | some u =>
-    simp only [disarmTm, upd] at h
-    split at h
-    · next hu => subst hu; revert h; cases tm t <;> simp [unarm]
-    · exact h
-
 set_option hygiene false in
 macro "crunch5" : tactic => `(tactic| (
-  simp only [kstep, wstep, ustep, estep, resumeU, schedule, disarm, finish, xtakeStep] at hs
+  simp only [kstep, wstep, ustep, estep, resumeU, schedule, disarm, finish, xtakeStep, hF, hD, hR, hO, hS, ↓reduceIte, Bool.true_and, Bool.false_and] at hs
   repeat' (split at hs)
   all_goals (first | contradiction | (simp only [Option.some.injEq] at hs; subst hs; constructor <;> (try simp only []) <;>
-    first | grind [lor_ne_zero, disarmTm_other, disarmTm_armed, timeoutBit] | grind (splits := 30) [lor_ne_zero, disarmTm_other, disarmTm_armed, timeoutBit]))))
+    first | grind [lor_ne_zero, disarmTm_other, disarmTm_armed, disarmTm_gone, disarmTm_popped, timeoutBit]
+          | grind (splits := 30) [lor_ne_zero, disarmTm_other, disarmTm_armed, disarmTm_gone, disarmTm_popped, timeoutBit]
+          | grind (splits := 40) (instances := 6000) (gen := 10) [lor_ne_zero, disarmTm_other, disarmTm_armed, disarmTm_gone, disarmTm_popped, timeoutBit]))))
 
 set_option hygiene false in
 macro "prep5" : tactic => `(tactic| (
+  obtain ⟨hF, hD, hR, hO, hS⟩ := hc
   obtain ⟨k0, lt, ls, lk, lw, lq, wt, ws, wk, ww, wq, u1, nb, nd⟩ := h
   have t1 := h3.t1
   clear h3
-  obtain ⟨ff, ent, tf, ta, tk0, tk1, tk2, ts, hk, hw⟩ := h5))
+  obtain ⟨lk1, lk2, m2, m1, ft, hk, hw⟩ := h7
+  obtain ⟨ta, tkd, tk1, tk2, ts⟩ := h5))
+
+set_option hygiene false in
+macro "crunch5q" : tactic => `(tactic| (
+  simp only [kstep, wstep, ustep, estep, resumeU, schedule, disarm, finish, xtakeStep, hF, hD, hR, hO, hS, ↓reduceIte, Bool.true_and, Bool.false_and] at hs
+  repeat' (split at hs)
+  all_goals (first | contradiction | (simp only [Option.some.injEq] at hs; subst hs; constructor <;> (try simp only []) <;>
+    grind [lor_ne_zero, disarmTm_other, disarmTm_armed, disarmTm_gone, disarmTm_popped, timeoutBit]))))
+
+set_option hygiene false in
+macro "c5a" : tactic => `(tactic| (clear k0 lk lw lq wk ww wq nb nd t1 lk1 lk2 m2 m1 ft hk hw; crunch5q))
+set_option hygiene false in
+macro "c5b" : tactic => `(tactic| (clear k0 lw lq wk ww wq nb nd lk1 lk2 m1 ft hk hw; crunch5))
+/-- the same proof with less and less of the context cleared (all ids are `Nat`: e-matching explodes on the full context) -/
+macro "c5" : tactic => `(tactic| first | c5a | c5b | crunch5)
+
+set_option hygiene false in
+macro "u5a" : tactic => `(tactic| (clear m2 hq hnk u1 hu1 hk0n; crunch5q))
+set_option hygiene false in
+macro "u5b" : tactic => `(tactic| (clear m2 hq u1; crunch5q))
+set_option hygiene false in
+macro "u5c" : tactic => `(tactic| (clear hq hnk hk0n; crunch5))
+macro "u5" : tactic => `(tactic| first | u5a | u5b | u5c | crunch5)
 
 end MayVerif.Io
